@@ -69,7 +69,7 @@ func c27Generated(r *vlib.Run) {
 		r.Class("fixed:" + verdictClass(oc))
 	}
 
-	nValid := r.N(400, 8000)
+	nValid := r.N(400, 20000)
 	r.Par(nValid, func(i int) {
 		id := fmt.Sprintf("gen/%d", i)
 		if !r.Want(id) {
@@ -96,7 +96,7 @@ func c27Generated(r *vlib.Run) {
 		}
 		return s
 	}
-	nMut := r.N(3, 40) * len(mutators)
+	nMut := r.N(3, 100) * len(mutators)
 	r.Par(nMut, func(i int) {
 		id := fmt.Sprintf("mut/%d", i)
 		if !r.Want(id) {
